@@ -26,6 +26,7 @@ type unitGen struct {
 	n    int
 	pkg  string // "" for main, "lib." when the declarations live in package lib
 	decl strings.Builder
+	pre  strings.Builder // declarations placed directly in front of the unit function (same file)
 	body strings.Builder // statements of the unit function
 }
 
@@ -186,12 +187,17 @@ func (u *unitGen) nilIface() string {
 		fmt.Fprintf(&u.decl, "type impl%[1]d struct{}\n\nfunc (impl%[1]d) %[2]s() int { return 4 }\n\n", n, mn)
 		fmt.Fprintf(&u.body, "\tvar i quiet%[1]d = impl%[1]d{}\n\tout(\"unit %[1]d \" + itoa(i.%[2]s()))\n\ti = nil\n\tout(\"unit %[1]d \" + itoa(i.%[2]s()))\n", n, mn)
 	}
+	// an unreachable function that calls the same method through the interface, declared first
+	if rapid.Bool().Draw(u.rt, "deadcaller") {
+		fmt.Fprintf(&u.pre, "func deadCaller%[1]d(q quiet%[1]d) int { return q.%[2]s() + 1 }\n\n", n, mn)
+		kind += "+dead-caller-first"
+	}
 	return "nil-iface:" + kind + ":" + mn
 }
 
 func (u *unitGen) dynamicTypes() string {
 	n := u.n
-	kind := u.pick("dyn", []string{"any-equal", "map-any-key", "array-key", "assert-struct", "switch-many", "generic-type-method", "generic-through-generic", "ptr-promoted", "func-table", "method-expr-table", "local-type", "chan-of-struct"})
+	kind := u.pick("dyn", []string{"any-equal", "map-any-key", "array-key", "assert-struct", "switch-many", "generic-type-method", "generic-through-generic", "ptr-promoted", "func-table", "method-expr-table", "local-type", "chan-of-struct", "generic-method-generic-arg", "generic-method-generic-arg"})
 	switch kind {
 	case "any-equal":
 		fmt.Fprintf(&u.decl, "type pt%[1]d struct{ x, y int }\n\n", n)
@@ -225,6 +231,11 @@ func (u *unitGen) dynamicTypes() string {
 		fmt.Fprintf(&u.body, "\tf := calc%[1]d.double\n\tg := (*calc%[1]d).inc\n\tc := calc%[1]d{5}\n\tout(\"unit %[1]d \" + itoa(f(c)+g(&c)+c.v))\n", n)
 	case "local-type":
 		fmt.Fprintf(&u.body, "\ttype local struct{ a, b int }\n\tvar v interface{} = local{1, 2}\n\tl, ok := v.(local)\n\tout(\"unit %[1]d \" + itoa(l.a+l.b) + btoa(ok))\n", n)
+	case "generic-method-generic-arg":
+		// an unexported method of a generic type whose signature mentions another generic type
+		// instantiated with the receiver's type parameter
+		fmt.Fprintf(&u.decl, "type opt%[1]d[T any] struct{ v T }\n\ntype cache%[1]d[T any] struct{ items []T }\n\nfunc (c *cache%[1]d[T]) store(o opt%[1]d[T]) int {\n\tc.items = append(c.items, o.v)\n\treturn len(c.items)\n}\n\nfunc (c *cache%[1]d[T]) fill(os []opt%[1]d[T], m map[string]opt%[1]d[T]) int {\n\tfor _, o := range os {\n\t\tc.store(o)\n\t}\n\treturn len(c.items) + len(m)\n}\n\nfunc (c *cache%[1]d[T]) plain(v T) int { return len(c.items) * 10 }\n\ntype storer%[1]d[T any] interface {\n\tstore(opt%[1]d[T]) int\n\tfill([]opt%[1]d[T], map[string]opt%[1]d[T]) int\n}\n\n", n)
+		fmt.Fprintf(&u.body, "\tc := &cache%[1]d[int]{}\n\tvar s storer%[1]d[int] = c\n\tr1 := s.store(opt%[1]d[int]{4})\n\tr2 := c.store(opt%[1]d[int]{5})\n\tr3 := c.plain(6)\n\tr4 := s.fill([]opt%[1]d[int]{{7}}, nil)\n\tout(\"unit %[1]d \" + itoa(r1+r2*10+r3*100+r4*1000))\n\td := &cache%[1]d[string]{}\n\tq1 := d.store(opt%[1]d[string]{\"x\"})\n\tq2 := d.fill(nil, map[string]opt%[1]d[string]{\"k\": {\"y\"}})\n\tout(\"unit %[1]d \" + itoa(q1+q2*10))\n", n)
 	case "chan-of-struct":
 		fmt.Fprintf(&u.decl, "type msg%[1]d struct {\n\tid   int\n\tbody [2]int\n}\n\n", n)
 		fmt.Fprintf(&u.body, "\tc := make(chan msg%[1]d, 1)\n\tc <- msg%[1]d{1, [2]int{2, 3}}\n\tm := <-c\n\tout(\"unit %[1]d \" + itoa(m.id+m.body[1]))\n", n)
@@ -256,7 +267,7 @@ func genUnit(rt *rapid.T, n int) (decl, fn, kind string) {
 	default:
 		kind = u.lookAlikes()
 	}
-	fn = fmt.Sprintf("func unit%d() {\n\tdefer func() {\n\t\tif r := recover(); r != nil {\n\t\t\tout(\"unit %d panic \" + classify(r))\n\t\t}\n\t}()\n%s}\n\n", n, n, u.body.String())
+	fn = u.pre.String() + fmt.Sprintf("func unit%d() {\n\tdefer func() {\n\t\tif r := recover(); r != nil {\n\t\t\tout(\"unit %d panic \" + classify(r))\n\t\t}\n\t}()\n%s}\n\n", n, n, u.body.String())
 	return u.decl.String(), fn, kind
 }
 
